@@ -615,6 +615,20 @@ type retTuple struct {
 	site ssa.Instruction
 	ret  *ssa.Return
 	vals []ssa.Value
+	pred *ssa.BasicBlock // for a split return: the arm's last block and the join it enters
+	join *ssa.BasicBlock
+}
+
+// via: this way of returning is taken only through edge succ of ifi (for an arm that consists of that very edge -
+// `if n != 0 { ctx = derived }; return ctx` - the edge itself is the arm).
+func (t retTuple) via(q *fq, ifi *ssa.If, succ int) bool {
+	if ifi == nil {
+		return false
+	}
+	if t.pred == ifi.Block() && t.join != nil && ifi.Block().Succs[succ] == t.join && ifi.Block().Succs[1-succ] != t.join {
+		return true
+	}
+	return q.onlyViaEdge(t.site, ifi, succ)
 }
 
 // returnTuples splits a return whose results are phis of one join block into one tuple per incoming edge that the
@@ -628,16 +642,16 @@ func (c *Ctx) returnTuples(r *ssa.Return) []retTuple {
 			continue
 		}
 		if join != nil && ph.Block() != join {
-			return []retTuple{{r, r, r.Results}}
+			return []retTuple{{site: r, ret: r, vals: r.Results}}
 		}
 		join = ph.Block()
 	}
 	if join == nil || !join.Dominates(r.Block()) {
-		return []retTuple{{r, r, r.Results}}
+		return []retTuple{{site: r, ret: r, vals: r.Results}}
 	}
 	for _, pb := range join.Preds {
 		if join.Dominates(pb) {
-			return []retTuple{{r, r, r.Results}}
+			return []retTuple{{site: r, ret: r, vals: r.Results}}
 		}
 	}
 	ks := c.P.FeasibleEdges(join, r)
@@ -649,7 +663,7 @@ func (c *Ctx) returnTuples(r *ssa.Return) []retTuple {
 	var out []retTuple
 	for _, k := range ks {
 		pred := join.Preds[k]
-		t := retTuple{site: pred.Instrs[len(pred.Instrs)-1], ret: r}
+		t := retTuple{site: pred.Instrs[len(pred.Instrs)-1], ret: r, pred: pred, join: join}
 		for _, v := range r.Results {
 			if ph, ok := v.(*ssa.Phi); ok {
 				t.vals = append(t.vals, ph.Edges[k])
